@@ -252,11 +252,30 @@ def _run_miri(prop, seed, opts, watchdog):
                 kind = "data_race"
             # first frame inside nuts-rs
             frame = "outside_nuts_rs"
-            for line in text[m.start():].splitlines():
+            lines_after = text[m.start():].splitlines()
+            for li, line in enumerate(lines_after):
                 mm = re.search(r"(?:inside|note: inside) `([^`]+)` at (/repo/\S+?):\d+", line)
                 if mm:
                     frame = re.sub(r"<[^<>]*>", "<_>", mm.group(1))[:120]
                     break
+                # backtrace format "N: function" / "    at /path:line:col"
+                if re.match(r"\s+at /repo/\S+?:\d+", line) and li > 0:
+                    fm = re.match(r"\s*\d+: (.*)$", lines_after[li - 1])
+                    if fm:
+                        frame = re.sub(r"<[^<>]*>", "<_>", fm.group(1))[:120]
+                        break
+            # nuts-rs reaches its dependencies through safe code only (its single unsafe block is the state pool in
+            # dynamics/state.rs): a report whose error location and whole backtrace lie outside /repo cannot be
+            # caused by nuts-rs; it is a finding about the dependency (or about the experimental aliasing model) and
+            # is recorded as inconclusive, not as a violation
+            report_text = text[m.start():]
+            loc = re.search(r"-->\s+(\S+?):\d+", report_text)
+            in_repo = (loc is not None and loc.group(1).startswith("/repo/")) or "/repo/src/dynamics/state.rs" in report_text
+            if not in_repo:
+                where = loc.group(1) if loc else "unknown location"
+                crate = re.search(r"/([a-z0-9_-]+)-\d+\.\d+\.\d+/", where)
+                inconclusive.append(f"schedule {k}: {kind} reported inside dependency {crate.group(1) if crate else where} ({msg[:100]}); no frame of the unsafe code of nuts-rs involved")
+                continue
             sig = f"{prop}:sanitizer:miri:{kind}:{frame}"
             by_sig.setdefault(sig, {"signature": sig, "detail": text[m.start():m.start() + 1500], "replay": {"sanitizer": "miri", "seed": seed + k, "miri_seed": k}})
         elif rc != 0 and rep is None:
